@@ -5,18 +5,21 @@
 (* ready sets from one member short of `need` upwards; signing attempts    *)
 (* differ only in the hidden seed, so two of them suffice), together with  *)
 (* what the specification allows:                                          *)
-(*   expect    "ok" | "toomany" | "exhausted"                              *)
-(*   possible  the excluded-member lists some outcome of the shuffles gives*)
+(*   attempts  per attempt number a:                                       *)
+(*     expect    "ok" | "toomany" | "exhausted"                            *)
+(*     possible  the excluded-member lists some outcome of the shuffles    *)
+(*               gives                                                     *)
 (*   orders    the orders in which the ready list is fed to the loops:     *)
 (*             every order for up to 4 ready members, otherwise ascending, *)
 (*             descending and all rotations of both                        *)
 EXTENDS AttemptSelection, TLC, Json, CSV, IOUtils
 
+CONSTANT GenAttempts   \* attempts 1..GenAttempts are tabulated per input (the cfg sets MaxAttempt = 1)
+
 GInit ==
     /\ InitInputs
     /\ 2 * need > Len(layout)
     /\ Cardinality(readySet) >= need - 1
-    /\ kind = "signing" => attempt <= 2
     /\ InitRest
 
 GNext == FALSE /\ UNCHANGED vars
@@ -28,18 +31,28 @@ FeedOrders ==
     ELSE LET a == Asc(readySet) d == Reverse(a) IN
          {Rotate(a, k) : k \in 0..(Len(a) - 1)} \cup {Rotate(d, k) : k \in 0..(Len(d) - 1)}
 
-Expect ==
-    IF need > Cardinality(readySet) /\ ~(kind = "dkg" /\ attempt = 1) THEN "toomany"
-    ELSE IF draws = {} THEN "exhausted" ELSE "ok"
+Enough == need <= Cardinality(readySet)
+
+\* the admissible draws of attempt a (= PossibleDraws with attempt = a); signing
+\* attempts differ only in the hidden seed
+DrawsAt(cls, a) ==
+    IF kind = "signing" THEN draws
+    ELSE IF a = 1 THEN DkgFirstDraws
+    ELSE IF Enough THEN DkgRetryDrawsAt(cls, a) ELSE {}
+
+ExpectAt(cls, a) ==
+    IF ~Enough /\ ~(kind = "dkg" /\ a = 1) THEN "toomany"
+    ELSE IF DrawsAt(cls, a) = {} THEN "exhausted" ELSE "ok"
 
 Case ==
+    LET cls == IF kind = "dkg" THEN Cls ELSE [s |-> {}, p |-> {}, t |-> {}] IN
     [layout   |-> layout,
      need     |-> need,
      kind     |-> kind,
-     attempt  |-> attempt,
      ready    |-> Asc(readySet),
-     expect   |-> Expect,
-     possible |-> {ExcludedList(d) : d \in draws},
+     attempts |-> [a \in 1..(IF kind = "signing" THEN 2 ELSE GenAttempts) |->
+                     [expect |-> ExpectAt(cls, a),
+                      possible |-> {ExcludedList(d) : d \in DrawsAt(cls, a)}]],
      orders   |-> FeedOrders]
 
 Emit == CSVWrite("%1$s", <<ToJson(Case)>>, "cases.ndjson")
